@@ -125,6 +125,9 @@ void World::close_fd(int fd) {
     if ((q->kind == 2 || q->kind == 3) && q->fd == fd) q = queue.erase(q); else ++q;
   }
   for (auto &kv : socks) if (kv.second->pair == v) kv.second->pair = nullptr;
+  // a connection attempt that was never accepted disappears from the listener's backlog
+  for (auto &kv : socks) if (kv.second->kind == VSock::TCP_LISTEN)
+    for (auto pi = kv.second->pending.begin(); pi != kv.second->pending.end();) { if (pi->first == v) pi = kv.second->pending.erase(pi); else ++pi; }
   socks.erase(it);
   activity = true;
 }
